@@ -9,4 +9,4 @@ mkdir -p "$D"
 cp "$SRC/patch.diff" "$SRC/demo.py" "$D/" || exit 2
 [ -f "$SRC/notes.md" ] && cp "$SRC/notes.md" "$D/"
 /verif/tools/seeded_verify.sh "$D"
-/verif/tools/seeded_run.sh "$D" "$PID" quick
+/verif/tools/seeded_run_wt.sh "$D" "$PID" quick
